@@ -11,6 +11,13 @@ _OUT = os.environ.get("VERIF_TRACE_OUT")
 def pytest_configure(config):
     if not _OUT:
         return
+    try:
+        _install()
+    except Exception:  # noqa: BLE001 - the transformers are not classes that can be subclassed and rebound (any more): nothing is recorded, nothing is claimed
+        pass
+
+
+def _install():
     import ahbicht.content_evaluation  # noqa: F401
     import evalcheck as E
     import ahbicht.expressions.requirement_constraint_expression_evaluation as rmod
